@@ -200,6 +200,14 @@ def _gen_case(rp, rf, rk, tier, flavour):
         var = lab.capitalize() if lab.capitalize() != lab else lab.upper()
         if var != lab:
             hosts.append(var + "." + rest)
+    hostdc = []
+    if flavour == "C08" and has_dom and rk.random() < 0.03:
+        # another host of the system's domain, the DOMAIN spelled in another capitalisation (host names compare
+        # case-insensitively; Kerberos / AD tools print them in upper case).  A token kind of its own: the other oracles
+        # take it for filler, the leak oracle reports it under a class of its own (known finding K11)
+        d2 = dom.upper() if rk.random() < 0.5 else ".".join(x.capitalize() for x in dom.split("."))
+        if d2 != dom:
+            hostdc = [name(rp) + "." + d2]
     ips = [ipv4(rp) for _ in range(rp.randint(0, 4))]
     if rp.random() < 0.06:
         ips += rp.sample(NEAR_LOOPBACK, rp.randint(1, 2))
@@ -244,7 +252,7 @@ def _gen_case(rp, rf, rk, tier, flavour):
            "obfuscate_mac": obf and rk.random() < 0.75}
     pool = [("ip", x) for x in ips] + [("mac", x) for x in macs] + [("kw", x) for x in kws] + [("pat", x) for x in pat_texts]
     pool += [("ip6", x) for x in ip6s]
-    pool += [("host", x) for x in hosts] + [("fqdn", fqdn), ("short", short)]
+    pool += [("host", x) for x in hosts] + [("fqdn", fqdn), ("short", short)] + [("hostdc", x) for x in hostdc]
     marker_mode = rp.random() < (0.7 if flavour != "C08" else 0.4)
     collision = flavour == "C09" and rk.random() < 0.04
     k6 = flavour == "C08" and rk.random() < 0.03
@@ -628,6 +636,11 @@ def oracle_c08(case, r, stats):
                 for h in hosts + [case["fqdn"], short]:
                     if h not in issued_host and h in o:
                         viols.append(V("C08.leak", "hostname-survives:%s" % ("short" if h == short else "fqdn"), "host name %r survives in %r" % (h, o)))
+            if cfg["obfuscate"] and cfg["obfuscate_hostname"] and "hostname" not in noobf:
+                for h in planted({"specs": [spec]}, ("hostdc",)):
+                    if h in o:
+                        viols.append(V("C08.leak", "hostname-survives:domain-in-other-case",
+                                       "host %r of the system's domain (domain spelled in another capitalisation) survives in %r" % (h, o)))
             if cfg["obfuscate"] and cfg["obfuscate_ipv6"] and "ipv6" not in noobf:
                 for a6 in planted({"specs": [spec]}, ("ip6",)):
                     if a6 not in issued_ip6 and occurs_token(a6, o, "0123456789abcdefABCDEF:"):
